@@ -423,18 +423,25 @@ def rule_grow(m):
         else:
             aa = [strip_cast(tt.t(a)) for a in adds[0]['args'][:2]]
             grown = set()
+            extra_guard = False
             for r in resizes:
                 ga = strip_cast(tt.t(r['args'][0]))
                 if ga[0] == 'bin' and ga[1] == '+' and strip_cast(ga[3]) == ('int', 1):
                     v = strip_cast(ga[2])
-                    for dep in f.region(r['i']) - f.region(adds[0]['i']):
+                    guards = f.region(r['i']) - f.region(adds[0]['i'])
+                    for dep in guards:
                         t = tt.t(f.branch_atom(dep[0]))
                         if t[0] == 'bin' and t[1] == '>=' and strip_cast(t[2]) == v and t[3][0] == 'mcall' and \
                                 t[3][1].endswith('::getSize') and dep[1] == 0 and f.can_reach_forward(r['i'], adds[0]['i']):
-                            grown.add(v)
+                            if len(guards) == 1:
+                                grown.add(v)
+                            else:
+                                extra_guard = True
             if grown != set(aa):
-                why = 'the graph is not grown to index + 1 under `index >= getSize()` for both indices of the record before ' \
-                      'the insertion'
+                why = 'the graph is not grown to index + 1 under exactly `index >= getSize()` for both indices of the record ' \
+                      'before the insertion' + (' (a growth step depends on a further condition, e.g. an else-branch of the '
+                                                'other index\'s test: a record whose both endpoints are new is under-sized)'
+                                                if extra_guard else '')
         if why:
             res.fail(Finding('F-IO.GROW', disp, 'growth schema', f.where(), why))
         else:
@@ -857,6 +864,86 @@ def rule_schema_text(m):
             res.fail(Finding('F-IO.SCHEMA.text', f.display(), 'delegation', f.where(),
                              'loadTextEdgeList does not forward (fileName, fromString) to the name loader'))
     res.require_sites(40, 'text schema facts')
+    return res
+
+
+def rule_tokeniser_schema(m):
+    """S-TOK: positions alternate find_first_not_of / find_first_of chained on the previous position; token k is
+    substr(start_k, end_k - start_k); the rest of the line starts at the fifth position."""
+    res = RuleResult('F-IO.TOKSCHEMA', 'the tokeniser computes p1 = first non-delimiter, p2 = first delimiter after p1, p3, p4, p5 '
+                                       'likewise (each search chained on the previous position with the same delimiter set) and '
+                                       'returns [substr(p1, p2-p1), substr(p3, p4-p3), rest from p5 or ""]')
+    for f in io_functions(m, IO + 'findEdgeFromString'):
+        res.sites += 1
+        tt = Terms(f)
+        sv, dv = ('var', f.params[0]), ('var', f.params[1])
+        pos = []   # ordered position variables
+        why = None
+        for n in sorted(f.nodes, key=lambda x: x['i']):
+            if n['k'] == 'DeclStmt' and len(n['decls']) == 1 and n['c'] and n['c'][0] >= 0:
+                t = tt.t(n['c'][0])
+                if t[0] == 'mcall' and t[1] in ('std::basic_string::find_first_not_of', 'std::basic_string::find_first_of') and t[2] == sv:
+                    pos.append((('var', n['decls'][0]), t))
+        if len(pos) != 5:
+            res.broken('F-IO.TOKSCHEMA: tokeniser of %s does not compute five positions with find_first_(not_)of' % f.display())
+            continue
+        for k, (pv, t) in enumerate(pos):
+            want = 'find_first_not_of' if k % 2 == 0 else 'find_first_of'
+            args = [strip_cast(a) for a in t[3]]
+            if not t[1].endswith('::' + want):
+                why = why or 'position %d is searched with %s, expected %s' % (k + 1, t[1].split('::')[-1], want)
+            if args[0] != dv:
+                why = why or 'position %d is not searched with the delimiter set' % (k + 1)
+            start = args[1] if len(args) > 1 else ('int', 0)
+            if start[0] == 'ctor':
+                start = ('int', 0)
+            if k == 0 and start != ('int', 0):
+                why = why or 'the first search does not start at the beginning of the line'
+            if k > 0 and start != pos[k - 1][0]:
+                why = why or 'the search for position %d does not start at position %d' % (k + 1, k)
+        P = [p[0] for p in pos]
+        subs = [tt.t(n['i']) for n in f.nodes if n['k'] == 'CXXMemberCallExpr' and 'callee' in n and
+                f.unit.decl(n['callee'])['tname'] == 'std::basic_string::substr']
+        seen_start = set()
+        for t in subs:
+            if t[2] != sv:
+                continue
+            a = [strip_cast(x) for x in t[3]]
+            st = a[0]
+            ln = a[1] if len(a) > 1 else None
+            if ln is not None and ln[0] == 'ctor':
+                ln = None
+            seen_start.add(st)
+            if st == P[0]:
+                if ln != ('bin', '-', P[1], P[0]):
+                    why = why or 'the first token is substr(p1, %s): its length must be p2 - p1 (the end position is not a length: a ' \
+                                 'line with leading blanks yields a token that runs into the separator)' % show(ln, f.unit) if ln else 'missing length'
+            elif st == P[2]:
+                if ln != ('bin', '-', P[3], P[2]):
+                    why = why or 'the second token is substr(p3, %s): its length must be p4 - p3' % (show(ln, f.unit) if ln else 'missing')
+            elif st == P[4]:
+                if ln is not None and not (ln[0] in ('member', 'global', 'field') or 'npos' in str(ln)):
+                    why = why or 'the rest of the line is cut to a length'
+            else:
+                why = why or 'a token starts at %s, which is not p1, p3 or p5' % show(st, f.unit)
+        if not {P[0], P[2], P[4]} <= seen_start:
+            why = why or 'not all of the three fields (p1.., p3.., p5..) are extracted'
+        # the rest is taken only when p5 != npos
+        if why is None:
+            okn = False
+            for n in f.nodes:
+                if n['k'] == 'IfStmt':
+                    c = tt.t(n['cond'])
+                    if c[0] == 'bin' and c[1] in ('==', '!=') and strip_cast(c[2]) == P[4] and 'npos' in str(c[3]):
+                        okn = True
+            if not okn:
+                why = 'the label field is not conditioned on p5 != npos'
+        if why:
+            res.fail(Finding('F-IO.TOKSCHEMA', f.display(), 'tokeniser schema', f.where(), why))
+        else:
+            res.ok(dict(function=f.display(), schema='p1..p5 chained searches; [substr(p1,p2-p1), substr(p3,p4-p3), p5==npos ? "" : substr(p5)]'),
+                   fn=f.display())
+    res.require_sites(1, 'tokeniser definitions')
     return res
 
 
